@@ -168,14 +168,23 @@ var c13Ops = []string{"or", "and", "unless", "eq", "ne", "gt", "ge", "lt", "le",
 
 func init() {
 	props["C10"] = func(c *Ctx) {
-		c.Res.Rule = "case = 2-13 records whose label sets are prefixes/concatenations of one another ({a=bc} vs {ab=c}, {a=b,c=} vs {a=,bc=}), one 6-label set, or (a third of the cases) random sets over a shared alphabet of names and values incl. the empty value ({a=,b=} vs {a=b}), all with permuted attribute order and repeated x count_over_time / sum by|without (...) over it x instant or range grid; every case evaluated 5x (20x thorough) to sample map iteration orders; compared with the model (series identified by label set) incl. the number of series per label set; non-trivial = at least 2 samples share a label set; distinct by request line"
+		c.Res.Rule = "case = 2-13 records whose label sets are prefixes/concatenations of one another ({a=bc} vs {ab=c}, {a=b,c=} vs {a=,bc=}), one 6-label set, or (a third of the cases) random sets over a shared alphabet of names and values incl. the empty value ({a=,b=} vs {a=b}), all with permuted attribute order and repeated x count_over_time / sum by|without (...) over it / a by and a without naming the same label stacked either way x instant or range grid; every case evaluated 5x (20x thorough) to sample map iteration orders; compared with the model (series identified by label set) incl. the number of series per label set; non-trivial = at least 2 samples share a label set; distinct by request line"
 		spec := metricSpec("Metric.eval (series identity) == Engine.Eval, repeated evaluations identical", "c10", func(r *rand.Rand) MetricCase {
 			base := &MExpr{Kind: "range", Op: "count_over_time", RangeS: pick(r, []int64{2, 5, 10})}
 			t := MetricCase{Recs: genC10Recs(r), Repeat: 5}
 			if c.Thorough() {
 				t.Repeat = 20
 			}
-			switch r.Intn(4) {
+			switch r.Intn(5) {
+			case 4:
+				// a `by` and a `without` that name the same label, stacked either way: the outer clause decides
+				ls := distinctStrings(r, []string{"a", "ab", "c", "bc", "d"}, 2)
+				inner := &MExpr{Kind: "vagg", Op: pick(r, []string{"sum", "count"}), Group: &MGroup{Without: false, Labels: ls}, A: base}
+				outer := &MGroup{Without: true, Labels: ls[:1]}
+				if r.Intn(2) == 0 {
+					inner.Group, outer = &MGroup{Without: true, Labels: ls[:1]}, &MGroup{Without: false, Labels: ls}
+				}
+				t.E = MExpr{Kind: "vagg", Op: pick(r, []string{"max", "sum", "count"}), Group: outer, A: inner}
 			case 0:
 				t.E = *base
 			case 1:
